@@ -1,6 +1,7 @@
 //! Witness programs for C18 / C19 on the REAL compiler (isograph_compiler::compile):
 //!   compile_fs root_only     first compile of a project that has no client fields
 //!   compile_fs interrupted   write fails part-way, obstacle removed, next compile succeeds
+//!   compile_fs failed_then_ok  a failed compile in the middle of a session does not make the next one rewrite unchanged artifacts
 //! exit 0 = after the last successful compile the artifact directory holds exactly the
 //! generated artifacts; exit 1 = it does not (or a valid project fails to compile).
 use std::{fs, path::{Path, PathBuf}};
@@ -227,6 +228,52 @@ fn main() {
                         bad = true;
                     } else {
                         println!("{what} after an interrupted write: error reported, artifact directory untouched");
+                    }
+                }
+            }
+            if bad { std::process::exit(1); }
+        }
+        "failed_then_ok" => {
+            // C18 witness ("later compiles write only artifacts whose content changed") for
+            // sessions with a FAILED compile in the middle: valid compile, one invalid edit
+            // (compile reports errors), then the edit is undone -- or replaced by a valid one --
+            // and the project compiles again. Every artifact whose content is the same before
+            // and after that last compile must still be the SAME file (inode and mtime): a
+            // compiler that forgot what it had written would delete and recreate everything.
+            use std::os::unix::fs::MetadataExt;
+            let invalid: [(&str, String); 3] = [
+                ("syntax error", format!("{FOO}export const X = iso(`field Query.Bar @component {{ world `)(() => null);\n")),
+                ("undefined field", format!("{FOO}export const X = iso(`\n  field Query.Bar @component {{\n    nope\n  }}\n`)(() => null);\n")),
+                ("duplicate definition", format!("{FOO}export const X = iso(`\n  field Query.Foo @component {{\n    world\n  }}\n`)(() => null);\n")),
+            ];
+            let ident = |r: &Path| {
+                let mut v = vec![];
+                list_files(&r.join("src/__isograph"), &mut v);
+                let mut out: Vec<(String, String, u64, i64, i64)> = v.iter().map(|p| { let m = fs::metadata(p).unwrap(); (p.display().to_string(), fs::read_to_string(p).unwrap_or_default(), m.ino(), m.mtime(), m.mtime_nsec()) }).collect();
+                out.sort();
+                out
+            };
+            let mut bad = false;
+            for (what, text) in invalid.iter() {
+                for (then, last) in [("edit undone", FOO), ("edit replaced by a valid one", FOO_BAR)] {
+                    setup(&root, FOO);
+                    let config = create_config(&root.join("isograph.config.json"), cwd);
+                    let mut state = CompilerState::<P>::new(config, cwd).map_err(|e| e.0).expect("state");
+                    compile::<P>(&mut state).map_err(|e| format!("{e:?}")).expect("valid project compiles");
+                    let rel: common_lang_types::RelativePathToSourceFile = "src/a.ts".intern().into();
+                    state.db.insert_iso_literal(rel, text.clone());
+                    if compile::<P>(&mut state).is_ok() { println!("{what}: compiled without error (skipped)"); continue; }
+                    let before = ident(&root);
+                    std::thread::sleep(std::time::Duration::from_millis(20));
+                    state.db.insert_iso_literal(rel, last.to_string());
+                    compile::<P>(&mut state).map_err(|e| format!("{e:?}")).expect("valid project compiles again");
+                    let after = ident(&root);
+                    let rewritten: Vec<&String> = before.iter().filter(|b| after.iter().any(|a| a.0 == b.0 && a.1 == b.1 && (a.2, a.3, a.4) != (b.2, b.3, b.4))).map(|b| &b.0).collect();
+                    if !rewritten.is_empty() {
+                        println!("REWRITTEN: valid compile, {what} (errors reported), {then}, compile: {} of {} artifacts with unchanged content were written again: {:?}", rewritten.len(), before.len(), rewritten);
+                        bad = true;
+                    } else {
+                        println!("{what}, {then}: only changed artifacts were written");
                     }
                 }
             }
